@@ -58,6 +58,27 @@ impl Iterator for DataIterator {
     }
 }
 
+#[cfg(feature = "verif-hooks")]
+impl DataIterator {
+    pub(crate) fn verif_cursor(&self) -> crate::verif::VerifDataCursor {
+        crate::verif::VerifDataCursor {
+            chunk_index: self.chunk_index,
+            chunk_item_index: self.chunk_item_index,
+            chunks: self
+                .chunks
+                .iter()
+                .map(|chunk| {
+                    (
+                        chunk.location.as_numbered().map(|nloc| nloc.line),
+                        chunk.location.token_index,
+                        chunk.data.len(),
+                    )
+                })
+                .collect(),
+        }
+    }
+}
+
 #[derive(Debug, PartialEq, Clone)]
 pub enum DataElement {
     String(Rc<String>),
